@@ -12,11 +12,25 @@ import (
 
 var kfNaN bool
 
+// genOff lists generator features switched off by active known findings.
+var genOff = map[string]bool{}
+
 func initKF() {
 	kfNaN = kf.Activate("KF-C01-nan-payload", func(in string) bool {
 		o := orc.ParsePrintPreserves(in, orc.Opts{})
 		return o.V == orc.Violation && o.Class == "meaning_changed"
 	})
+	// grammar gaps of the external parser: valid input is a syntax error
+	syntaxErr := func(in string) bool {
+		o := orc.ParsePrintPreserves(in, orc.Opts{OwnGenerator: true})
+		return o.V == orc.Violation && o.Class == "parse_error" && strings.Contains(o.Msg, "syntax error")
+	}
+	if kf.Activate("KF-C01-retattr-align", syntaxErr) {
+		genOff["retattr-align"] = true
+	}
+	if kf.Activate("KF-C01-freeze-metadata", syntaxErr) {
+		genOff["freeze-metadata"] = true
+	}
 }
 
 var reFloatLit = regexp.MustCompile(`\b0x([HKLM]?)([0-9A-Fa-f]+)\b`)
